@@ -3,9 +3,9 @@ from sf_common import *
 import bp
 
 EXPLANATION = ('C17: real Sign/StepFunction/Relative_Difference/Floats_Equal: consistency, symmetry and reflexivity with every divisor non-zero (EA) and, bit-precisely over all doubles, Sign/StepFunction consistency (CBMC); '
-               'Round: odd, Round(0)=0, more than 7 digits rejected, and - with E = floor(log10|x|), T = 10^E as an abstract decade (axioms T > 0, 10^-E = 1/T, T <= |x| < 10 T) - within half a unit of the last digit, digit structure T*c*floor(10^(d-1) x/T + 1/2), monotone within a decade, for d = 1..7; Dawson_Integral: odd on both branches; VSH coefficient tables with symbolic integer (l,m): selection structure (non-zero only for l_hat = l+-1 and the stated m_hat) and the sum rules sum |coef|^2 = 1 (Y) and = l(l+1) (Psi); component outside {0,1,2} rejected; summation of the tables in Vector_Spherical_Harmonics_Y/Psi with the scalar harmonics as symbols.')
+               'Round: odd, Round(0)=0, more than 7 digits rejected, and - with E = floor(log10|x|), T = 10^E as an abstract decade (axioms T > 0, 10^-E = 1/T, T <= |x| < 10 T) - within half a unit of the last digit, digit structure T*c*floor(10^(d-1) x/T + 1/2), monotone within a decade, for d = 1..7; Dawson_Integral: odd on both branches, and the polynomial branch (wherever the code takes it in 0 < x < 1) within 2e-7 of the alternating-series enclosure of the Dawson integral; VSH coefficient tables with symbolic integer (l,m): selection structure (non-zero only for l_hat = l+-1 and the stated m_hat) and the sum rules sum |coef|^2 = 1 (Y) and = l(l+1) (Psi); component outside {0,1,2} rejected; summation of the tables in Vector_Spherical_Harmonics_Y/Psi with the scalar harmonics as symbols.')
 BOUNDS = {'quick': {'vsh_lmax': 4}, 'thorough': {'vsh_lmax': 12}}
-NOT_DECIDED = ['accuracy of Dawson_Integral / Erfi / Inv_Erf (transcendental references)', "Round: idempotence, monotonicity ACROSS decades, and the effect of rounding in log10/pow near powers of ten (decided: half-unit accuracy, digit structure and monotonicity within a decade, with E = floor(log10|x|), 10^E as an abstract decade)", 'conjugation, tangentiality and gradient identities of the vector harmonics as identities of functions (need the scalar harmonics from boost; decided here: coefficient tables, selection and sum rules, and that the summation loops add exactly the table entries with |m_hat| <= l_hat for l <= vsh_lmax) and the sign conventions of the tables']
+NOT_DECIDED = ['accuracy of the exp-sum branch of Dawson_Integral, of Erfi and of Inv_Erf (transcendental references; decided: the polynomial branch of Dawson_Integral against the alternating-series enclosure)', "Round: idempotence, monotonicity ACROSS decades, and the effect of rounding in log10/pow near powers of ten (decided: half-unit accuracy, digit structure and monotonicity within a decade, with E = floor(log10|x|), 10^E as an abstract decade)", 'conjugation, tangentiality and gradient identities of the vector harmonics as identities of functions (need the scalar harmonics from boost; decided here: coefficient tables, selection and sum rules, and that the summation loops add exactly the table entries with |m_hat| <= l_hat for l <= vsh_lmax) and the sign conventions of the tables']
 ASSUMPTIONS = ['EA: doubles exact reals, exp/log10/pow uninterpreted', 'VSH: l, m symbolic integers with l >= 1, |m| <= l; square roots via witnesses']
 
 X, Y, T = z3.Real('x'), z3.Real('y'), z3.Real('tol')
@@ -120,6 +120,20 @@ def job_dawson():
                 expax = [uf('exp')(e[2]) > 0 for s_ in (p.st, q.st) for e in s_.events if e[0] == 'math' and e[1] == 'exp']      # axiom: exp > 0 for the argument terms that occur
                 res.append(prove('dawson/%s/odd[%d,%d]' % (region, pi, qi), p.st.pc + q.st.pc + expax, toR(q.ret) == -toR(p.ret), 60000, {'x': X, 'op': 30}, key='C17/dawson/odd'))
         if n == 0: res.append(ob('dawson/%s/pairs' % region, 'undecided', detail='no returning path pair: %s' % [str(p.end) for p in P + Q][:3]))
+    # accuracy of the polynomial (Maclaurin) branch, wherever the code takes it in 0 < x < 1: the Maclaurin series of Dawson's integral
+    # sum (-2)^k x^(2k+1)/(2k+1)!! alternates with decreasing terms for 0 < x < 1, hence S4 + t9 - t11 <= F(x) <= S4 + t9 with S4 the
+    # exact four-term sum, t9 = 16 x^9/945, t11 = 32 x^11/10395.  Claim: on every returning path without a transcendental call the
+    # returned polynomial stays within 2e-7 of that enclosure (the branch with exp() is not decided here).
+    lim = Limits(max_paths=200, feas_ms=2000)
+    _, P = sf(30, X, pre=[X > 0, X < 1], limits=lim, resolve_selects=True); n = 0
+    S4 = X - RV(2) / 3 * X ** 3 + RV(4) / 15 * X ** 5 - RV(8) / 105 * X ** 7; t9 = RV(16) / 945 * X ** 9; t11 = RV(32) / 10395 * X ** 11; tol = z3.RealVal('2/10000000')
+    for pi, p in enumerate(P):
+        if p.end is not None or any(e[0] == 'math' for e in p.st.events): continue
+        so = z3.Solver(); so.set('timeout', 3000); so.add(*p.st.pc)
+        if so.check() == z3.unsat: continue
+        n += 1; r = toR(p.ret)
+        res.append(prove('dawson/series-accuracy[%d]' % pi, p.st.pc, z3.And(r - (S4 + t9) >= -tol, r - (S4 + t9 - t11) <= tol), 60000, {'x': X, 'op': 30}, key='C17/dawson/series-accuracy', tactic='nra'))
+    if n == 0: res.append(ob('dawson/series-accuracy/paths', 'undecided', detail='no polynomial path in 0 < x < 1: %s' % [str(p.end) for p in P][:3]))
     return res
 
 L, M = z3.Int('l'), z3.Int('m')
@@ -291,6 +305,16 @@ def replay(ctx, o):
                     prev = r['ret']
             return False, 'native Round over %d mantissas x 5 decades, %d digits: within half a unit of the last digit and monotone' % (len(cands), d)
         return (r1.get('ret') != -r2.get('ret', 0)), 'native Round(%r,%d)=%s Round(%r,%d)=%s' % (x, d, r1.get('ret'), -x, d, r2.get('ret'))
+    if key == 'C17/dawson/series-accuracy':
+        from scipy.special import dawsn
+        # the model is one point of the failing path; natively the neighbourhood up to the next power-of-two fraction is scanned too (the enclosure is tight, the worst point of the path lies at its upper end)
+        worst = (0.0, x)
+        for xx in [x] + [x + (1.0 - x) * k / 64.0 for k in range(1, 64)]:
+            r = nsf(ctx, 30, xx)
+            if r['status'] != 'ok': return True, 'native Dawson(%r): %s' % (xx, r['status'])
+            if abs(xx) < 1 and abs(r['ret'] - float(dawsn(xx))) > worst[0]: worst = (abs(r['ret'] - float(dawsn(xx))), xx)
+        r = nsf(ctx, 30, x); e0 = abs(r['ret'] - float(dawsn(x)))
+        return e0 > 2e-7, 'native Dawson_Integral(%r) = %r, reference %r (error %.3g; worst on [x,1): %.3g at %r)' % (x, r['ret'], float(dawsn(x)), e0, worst[0], worst[1])
     if key == 'C17/dawson/odd':
         r1 = nsf(ctx, 30, x); r2 = nsf(ctx, 30, -x); return r1.get('ret') != -r2.get('ret', 0), 'native Dawson(%r)=%s Dawson(%r)=%s' % (x, r1.get('ret'), -x, r2.get('ret'))
     r = nsf(ctx, op, x, y, tol); r2 = nsf(ctx, op, y, x, tol)
